@@ -374,7 +374,25 @@ type c07Front struct {
 	mm  context.MuxMapper
 	srv *http.Server
 	ln  net.Listener
+	plmu sync.Mutex
 	pl  *pipeline.Pipeline
+}
+
+// ReloadPipeline replaces the pipeline by a new generation that inherits from the
+// running one (Pipeline.Inherit -> every filter's Inherit), as an update of the spec does.
+func (f *c07Front) ReloadPipeline(pipelineYAML string) {
+	pspec, err := supervisor.NewSpec(pipelineYAML)
+	if err != nil {
+		panic(fmt.Sprintf("pipeline spec: %v\n%s", err, pipelineYAML))
+	}
+	npl := &pipeline.Pipeline{}
+	f.plmu.Lock()
+	prev := f.pl
+	f.plmu.Unlock()
+	npl.Inherit(pspec, prev, nil)
+	f.plmu.Lock()
+	f.pl = npl
+	f.plmu.Unlock()
 }
 
 // Reload hands the running mux a new HTTPServer spec, as HTTPServer.Inherit does.
@@ -403,7 +421,12 @@ func c07StartFront(serverYAML, pipelineYAML string) *c07Front {
 	}
 	pl := &pipeline.Pipeline{}
 	pl.Init(pspec, nil)
-	mm := &contexttest.MockedMuxMapper{MockedGetHandler: func(string) (context.Handler, bool) { return pl, true }}
+	fr := &c07Front{pl: pl}
+	mm := &contexttest.MockedMuxMapper{MockedGetHandler: func(string) (context.Handler, bool) {
+		fr.plmu.Lock()
+		defer fr.plmu.Unlock()
+		return fr.pl, true
+	}}
 	m := newMux(httpstat.New(), httpstat.NewTopN(10), mm)
 	sspec, err := supervisor.NewSpec(serverYAML)
 	if err != nil {
@@ -419,7 +442,8 @@ func c07StartFront(serverYAML, pipelineYAML string) *c07Front {
 		srv.ErrorLog = log.New(io.Discard, "", 0)
 	}
 	go srv.Serve(ln)
-	return &c07Front{m: m, mm: mm, srv: srv, ln: ln, pl: pl}
+	fr.m, fr.mm, fr.srv, fr.ln = m, mm, srv, ln
+	return fr
 }
 
 func (f *c07Front) Addr() string { return f.ln.Addr().String() }
